@@ -20,6 +20,13 @@ for n in names:
         m2 = re.search(r"check=(\w+)", line2); key2 = re.search(r"violation key=(\S+)", line2)
         v2 = m2.group(1) if m2 else "error"
         entry["thorough"] = v2 + (" (`%s`)" % key2.group(1) if key2 and v2 == "caught" else "")
-    res[n] = entry
     print(n, entry, flush=True)
-    json.dump(res, open(rp, "w"), indent=1, sort_keys=True)
+    # read-modify-write under a lock: several instances may run side by side
+    import fcntl
+    with open(rp + ".lock", "w") as lk:
+        fcntl.flock(lk, fcntl.LOCK_EX)
+        cur = json.load(open(rp)) if os.path.exists(rp) else {}
+        cur[n] = entry
+        tmp = rp + ".tmp%d" % os.getpid()
+        json.dump(cur, open(tmp, "w"), indent=1, sort_keys=True)
+        os.replace(tmp, rp)
